@@ -146,6 +146,7 @@ func (c *canary) addKey(id, source string, priv crypto.PrivateKey, pemBytes []by
 	k := &keyInfo{ID: id, Source: source, Type: typ, Pub: pub, fp: fp}
 	c.keys[fp] = k
 	c.order = append(c.order, k)
+	have := map[string]int32{}
 	add := func(secret, enc string, b []byte) {
 		if len(b) < minPatternLen {
 			if len(b) > 0 {
@@ -153,6 +154,14 @@ func (c *canary) addKey(id, source string, priv crypto.PrivateKey, pemBytes []by
 			}
 			return
 		}
+		if j, dup := have[string(b)]; dup {
+			// the same bytes under another name (e.g. base64url = base64 when neither - _ + / occurs): one pattern, both labels
+			if !strings.Contains(c.pats[j].enc, enc) {
+				c.pats[j].enc += "|" + enc
+			}
+			return
+		}
+		have[string(b)] = int32(len(c.pats))
 		i := int32(len(c.pats))
 		c.pats = append(c.pats, pattern{key: k, secret: secret, enc: enc, b: append([]byte{}, b...)})
 		var w uint64
